@@ -8,6 +8,9 @@ import os
 
 import vcheck as V
 
+import re
+_re_known = re.compile(r'^<<"KNOWN", (\d+), (.*)>>$')
+
 DRIVER_FILES = ["detlib.go", "detsim.go", "inputsim.go"]
 BATCHABLE = {"set", "setex", "hmset", "del"}
 
@@ -67,7 +70,14 @@ def validate(ctx, module, cfg, files, name, reset_ev, n=8, timeout=900):
         for line, exp in mism:
             s, seg = V.segment_of(events, line, reset_ev=reset_ev)
             fails.append((line, exp, seg))
-        out.append((f, events, fails))
+        known = []
+        for p in res.prints:
+            m = _re_known.match(p)
+            if m:
+                ln = int(m.group(1))
+                s, seg = V.segment_of(events, ln, reset_ev=reset_ev)
+                known.append((ln, m.group(2), seg))
+        out.append((f, events, fails, known))
     return out
 
 
@@ -81,7 +91,7 @@ def _names(logev):
     return m
 
 
-def classify_det(seg, stage):
+def classify_det(seg, stage, expected=None):
     """Signature of a failing ZDetTrace segment (seg[0] = log event, seg[-1] = failing line)."""
     logev, e = seg[0], seg[-1]
     runs = [x for x in seg if x.get("ev") == "run"]
@@ -94,25 +104,32 @@ def classify_det(seg, stage):
         sig["class"] = "panic"
         sig["cmd"] = names.get(e.get("idx"), ("?", 0))[0]
         return sig
-    if (e.get("ev") == "reply" and names.get(e.get("idx"), ("?", 0, ""))[2].startswith("Qt:")) or \
-            (e.get("ev") == "dump" and "Qt:" in str(e.get("k"))):
-        # a command on a HyperLogLog key (in-memory HLL write cache)
+    on_hll = (e.get("ev") == "reply" and names.get(e.get("idx"), ("?", 0, ""))[2].startswith("Qt:")) or \
+        (e.get("ev") == "dump" and ("Qt:" in str(e.get("k")) or "51743a" in str(e.get("k"))))
+    if on_hll and stage == "isolate-hll":
+        # isolate stage only (unrestricted SET on HLL keys); in every other stage a mismatch on an
+        # HLL key is judged like any other
         sig["class"] = "hll-cache"
         return sig
     if sig["kind"] == "straddle":
         sig["class"] = "wallclock"
         sig["cmd"] = names.get(e.get("idx"), ("dump", 0))[0] if e.get("ev") == "reply" else "dump"
         return sig
-    # did a batchable command fail in the apply handler in any run of this log?
-    failing = set()
-    for x in seg:
-        if x.get("ev") == "reply" and str(x.get("r", "")).startswith("e:"):
-            nm, argc = names.get(x["idx"], ("?", 0, ""))[:2]
-            if nm in BATCHABLE and not (nm == "del" and argc > 2):
-                failing.add(nm)
-    if failing:
-        sig["class"] = "batch-abort"
-        return sig
+    # finding C07-batch-abort-on-apply-error, narrowed to its exact shape: the failing line is the
+    # REPLY of a batchable command, exactly one of (observed, first seen) is an error, and a
+    # batchable command LATER in the log failed in its apply handler in some run (the abort hands
+    # that command's error to every earlier command of the same write batch)
+    def batchable(i):
+        nm, argc = names.get(i, ("?", 0, ""))[:2]
+        return nm in BATCHABLE and not (nm == "del" and argc > 2)
+    if e.get("ev") == "reply" and batchable(e.get("idx")) and expected is not None:
+        obs_err = str(e.get("r", "")).startswith("e:")
+        exp_err = expected.lstrip('"').startswith("e:")
+        later_fail = any(x.get("ev") == "reply" and str(x.get("r", "")).startswith("e:") and x["idx"] > e["idx"]
+                         and batchable(x["idx"]) for x in seg)
+        if obs_err != exp_err and later_fail:
+            sig["class"] = "batch-abort"
+            return sig
     if runs and runs[0].get("eng") != runs[-1].get("eng"):
         sig["class"] = "engine-diff"
         sig["engine"] = runs[-1].get("eng")
